@@ -441,6 +441,47 @@ func (p *pool) rules(t *rapid.T) map[string]func(*rapid.T) {
 				p.log("#%d=%s(#%d,comb lo=%d step=%d n=%d)", nm.id, opNames[op], x.id, lo, step, len(vals))
 			}
 		},
+		"cowClone": func(t *rapid.T) {
+			x := p.pick(t, "x")
+			if x.tainted {
+				t.Skip("documented misuse on zero-copy lineage")
+			}
+			x.b.SetCopyOnWrite(true)
+			nm := p.add(x.b.Clone(), x.m.Clone(), false, x)
+			p.log("#%d.SetCopyOnWrite(true); #%d=Clone(#%d)", x.id, nm.id, x.id)
+		},
+		"dropChunks": func(t *rapid.T) {
+			// a range removal that deletes whole chunks (leading or interior) and ends at the edge of /
+			// strictly inside a later chunk: the chunk table and its flags have to shift
+			x := p.pick(t, "x")
+			keys := x.m.Keys16()
+			if len(keys) < 2 {
+				t.Skip("needs two chunks")
+			}
+			i := rapid.IntRange(0, len(keys)-2).Draw(t, "from")
+			j := rapid.IntRange(i+1, len(keys)-1).Draw(t, "to")
+			s := uint64(keys[i]) << 16
+			switch rapid.IntRange(0, 2).Draw(t, "startAt") {
+			case 1:
+				s = 0
+			case 2:
+				s += gen.Low(t, "startLow")
+			}
+			e := uint64(keys[j])<<16 + uint64(rapid.SampledFrom([]int{0, 1, 100, 65535, 65536}).Draw(t, "into"))
+			if rapid.IntRange(0, 2).Draw(t, "insideElement") == 0 {
+				w := x.m.Window(uint64(keys[j])<<16, uint64(keys[j])<<16+65535)
+				v, _ := w.Select(uint64(rapid.Uint64Range(0, w.Card()-1).Draw(t, "el")))
+				e = v
+			}
+			if e > model.Max32+1 {
+				e = model.Max32 + 1
+			}
+			p.log("#%d.RemoveRange(%d,%d)", x.id, s, e)
+			x.b.RemoveRange(s, e)
+			if e > s {
+				x.m.RemoveRange(s, e-1)
+			}
+		},
 		"SetCopyOnWrite": func(t *rapid.T) {
 			x := p.pick(t, "x")
 			if x.tainted {
